@@ -212,7 +212,7 @@ pub fn case_json(input: &[u8], o: &Opts) -> Value {
 
 pub fn run(ctx: &Ctx) -> Collector {
     let col = Collector::new("C11", "exploration");
-    col.set_rule("cases = automatic-mask builds over S_small (every input of <= 2 bytes: complete 8-candidate selection instances on the smallest symbols), S_len (quick: threshold/short/every-16th lengths; thorough: every length) and S_cap_families (160 (version, level) x extreme payloads), plus the forced-mask override over S_cell; observation = hook H2: the (mask, score, candidate matrix) triples recorded inside the selection loop; oracle: exactly 8 candidates covering masks 0..7, each equal to Table 10 mask k applied to the same placed codewords, the emitted symbol carries the emitted candidate, and the emitted mask is in argmin_k R.penalty(candidate_k) (documented penalty recomputed by R on the recorded candidate; ties accepted; interval on exact 5 % edges); non-trivial = a symbol was returned; distinct = distinct symbol matrices");
+    col.set_rule("cases = automatic-mask builds over S_small (every input of <= 2 bytes: complete 8-candidate selection instances on the smallest symbols), S_len (quick: threshold/short/every-7th lengths; thorough: every length) and S_cap_families (160 (version, level) x extreme payloads), plus the forced-mask override over S_cell; observation = hook H2: the (mask, score, candidate matrix) triples recorded inside the selection loop; oracle: exactly 8 candidates covering masks 0..7, each equal to Table 10 mask k applied to the same placed codewords, the emitted symbol carries the emitted candidate, and the emitted mask is in argmin_k R.penalty(candidate_k) (documented penalty recomputed by R on the recorded candidate; ties accepted; interval on exact 5 % edges); non-trivial = a symbol was returned; distinct = distinct symbol matrices");
     col.assume("only argmin membership is compared, never raw scores (an order-equivalent rescaling of the score is not a violation)");
     col.assume("hook H2 records the candidate exactly as it was scored (one guarded line after the score call)");
     let thorough = ctx.tier.thorough();
